@@ -161,7 +161,7 @@ class JinjaEngine(TemplateEngine):
 
         def get_source(self, *args, **kwargs):
             contents, filename, _ = super().get_source(*args, **kwargs)
-            return contents, filename, lambda _: False
+            return contents, filename, lambda: False
 
     class _Environment(jinja2.Environment):
         """
